@@ -253,7 +253,7 @@ func runC09(c *wk.Ctx) {
 		cfg := gen.Full()
 		cfg.Describable, cfg.TypedEnum, cfg.NilDisplay, cfg.GoodDefaults = true, false, false, true
 		var shape *gen.Shape
-		if tricky := gen.TrickyShapes(); idx < int64(len(ctors)+len(tricky)) {
+		if tricky := gen.DescribableTrickyShapes(); idx < int64(len(ctors)+len(tricky)) {
 			shape = tricky[int(idx)-len(ctors)]
 		} else {
 			shape = gen.GenScope(r, cfg)
